@@ -51,6 +51,7 @@ POLARS_CAVEATS[("nunique", "n_unique")] = ("Expr.n_unique() counts null as one m
 POLARS_CAVEATS[("first", "first")] = ("Expr.first() is the value of the first row, null included; Pandas' groupby first (project and transform) is the first "
                                       "non-missing value (g: x=[None, 1] gives null on Polars, 1 on Pandas)")
 POLARS_CAVEATS[("last", "last")] = ("Expr.last() is the value of the last row, null included; Pandas' groupby last is the last non-missing value")
+POLARS_UNSIGNED_RESULTS = {"n_unique"}
 CAVEAT_LIFTED_BY = {("nunique", "n_unique"): "drop_nulls", ("first", "first"): "drop_nulls", ("last", "last"): "drop_nulls"}
 KEYWORD_CONSTRAINTS = {("bfill", "fill_null"): ("strategy", "backward"), ("ffill", "fill_null"): ("strategy", "forward")}
 BINOPS = {"-": ast.Sub, "+": ast.Add, "*": ast.Mult, "/": ast.Div, "//": ast.FloorDiv, "%": ast.Mod, "**": ast.Pow, "%/%": ast.Div,
@@ -313,8 +314,16 @@ def _s3(program, res):
                     res.ok("C03-S3", f"{tname}[{op!r}]: when/then/otherwise template equals the documented truth table on all 12 rows")
                 continue
             # single method call on the first parameter (a trailing .cast(…) only changes the dtype; a leading .drop_nulls() removes missing values first)
+            had_cast = False
             while isinstance(body, ast.Call) and isinstance(body.func, ast.Attribute) and body.func.attr == "cast" and isinstance(body.func.value, ast.Call):
                 body = body.func.value
+                had_cast = True
+            # Polars counts (n_unique) are UInt32: without a cast to a signed type, -n and m - n wrap around in later arithmetic
+            if isinstance(body, ast.Call) and isinstance(body.func, ast.Attribute) and body.func.attr in POLARS_UNSIGNED_RESULTS and not had_cast:
+                res.fail("C03-S3", f"polars_model:{tname}", f"entry:{op}:unsigned-result",
+                         f"{tname}[{op!r}] returns Polars' `{body.func.attr}()` as it is (UInt32): project({{'n': 'x.nunique()'}}).extend({{'d': '-n'}}) gives 4294967294 "
+                         f"where Pandas gives -2 — cast the count to Int64", "data_algebra/polars_model.py", node.lineno)
+                continue
             prefixes = set()
             if isinstance(body, ast.Call) and isinstance(body.func, ast.Attribute) and isinstance(body.func.value, ast.Call) \
                     and isinstance(body.func.value.func, ast.Attribute) and body.func.value.func.attr in ("drop_nulls", "drop_nans") \
